@@ -192,6 +192,9 @@ func ensureBinary() (string, error) {
 	if err := os.Rename(bin+".tmp", bin); err != nil {
 		return "", err
 	}
+	if sites, err := os.ReadFile(filepath.Join(scratch, "sites.txt")); err == nil {
+		os.WriteFile(filepath.Join(dir, "sites.txt"), sites, 0644)
+	}
 	fmt.Fprintf(os.Stderr, "qsim: built simulation binary for tree %s in %.1fs (%s)\n", hash, time.Since(start).Seconds(), strings.TrimSpace(outb.String()))
 	// keep the three most recent entries
 	ents, _ := os.ReadDir(cache)
@@ -313,6 +316,7 @@ type summary struct {
 	WallSeconds  float64           `json:"wall_seconds"`
 	Stopped      string            `json:"stopped"`
 	Batches      map[string]int    `json:"batches"`
+	Sites        map[string]int    `json:"sites"`
 }
 
 type workerResult struct {
@@ -887,6 +891,12 @@ func merge(t *summary, s *summary, fps, efps map[uint64]bool) {
 	for k, v := range s.Batches {
 		t.Batches[k] += v
 	}
+	if t.Sites == nil {
+		t.Sites = map[string]int{}
+	}
+	for k, v := range s.Sites {
+		t.Sites[k] += v
+	}
 	for k, v := range s.Known {
 		t.Known[k] += v
 		if _, ok := t.KnownDetail[k]; !ok {
@@ -933,7 +943,9 @@ func writeEvidence(prop, tier string, seed uint64, t *summary, fps, efps map[uin
 		}
 		faults[k]["fired"] = v
 	}
+	sites := siteReport(t.Sites)
 	cov := map[string]interface{}{
+		"statement_sites":           sites,
 		"evaluations":               t.Evaluations,
 		"distinct_nontrivial":       len(fps),
 		"rule":                      pi.rule,
@@ -980,6 +992,74 @@ func writeEvidence(prop, tier string, seed uint64, t *summary, fps, efps map[uin
 	dir := filepath.Join(outDir(), "evidence")
 	os.MkdirAll(dir, 0755)
 	return os.WriteFile(filepath.Join(dir, prop+".json"), b, 0644)
+}
+
+// siteReport relates the statement sites of the instrumented code passed by
+// running goroutines to the list the instrumenter wrote at build time: per
+// file, how many of its sites this batch reached. With QSIM_COVER set the
+// sites never reached are listed on stderr (a diagnostic for workloads).
+func siteReport(hit map[string]int) map[string]interface{} {
+	rep := map[string]interface{}{"measure": "statement positions of the instrumented packages (a yield point precedes every statement) passed by a running goroutine during this batch"}
+	bin, err := ensureBinary()
+	if err != nil {
+		return rep
+	}
+	data, err := os.ReadFile(filepath.Join(filepath.Dir(bin), "sites.txt"))
+	if err != nil {
+		return rep
+	}
+	type fc struct{ hit, total int }
+	files := map[string]*fc{}
+	var missed []string
+	total, reached := 0, 0
+	for _, site := range strings.Fields(string(data)) {
+		file := site
+		if i := strings.LastIndex(site, ":"); i > 0 {
+			file = site[:i]
+		}
+		if strings.HasSuffix(file, "_gen.go") || strings.HasPrefix(file, "examples/") || strings.HasPrefix(file, "zzprobe/") {
+			continue // generated proxies/stubs of interfaces no scenario uses
+		}
+		f := files[file]
+		if f == nil {
+			f = &fc{}
+			files[file] = f
+		}
+		f.total++
+		total++
+		if hit[site] > 0 {
+			f.hit++
+			reached++
+		} else {
+			missed = append(missed, site)
+		}
+	}
+	by := map[string]string{}
+	for name, f := range files {
+		by[name] = fmt.Sprintf("%d/%d", f.hit, f.total)
+	}
+	rep["reached"] = reached
+	rep["total_hand_written"] = total
+	rep["by_file"] = by
+	if dir := os.Getenv("QSIM_COVER"); dir != "" {
+		// QSIM_COVER=<dir>: the reached sites go to <dir>/<time>.sites too
+		var got []string
+		for k, n := range hit {
+			if n > 0 {
+				got = append(got, k)
+			}
+		}
+		sort.Strings(got)
+		if os.MkdirAll(dir, 0755) == nil {
+			os.WriteFile(filepath.Join(dir, fmt.Sprintf("%d.sites", time.Now().UnixNano())), []byte(strings.Join(got, "\n")+"\n"), 0644)
+		}
+		sort.Strings(missed)
+		fmt.Fprintf(os.Stderr, "qsim: statement sites never reached (%d of %d):\n", len(missed), total)
+		for _, m := range missed {
+			fmt.Fprintf(os.Stderr, "  %s\n", m)
+		}
+	}
+	return rep
 }
 
 // ---------------------------------------------------------------------------
